@@ -179,7 +179,7 @@ fn check_roundtrip<const N: usize>(t: u8) {
 }
 
 // @harness c04_sync_decode
-// @props C04 C03
+// @props C04:quick C03:quick
 // @tier quick
 // @timeout 900
 // @functions Message::deserialize, Header::deserialize_header, MessageBody::deserialize, SyncMessage::deserialize_content, TlvSet::deserialize, TlvSetIterator::next, Message::serialize, Header::serialize_header, Message::wire_size, PartialEq for Message
@@ -190,7 +190,7 @@ fn check_roundtrip<const N: usize>(t: u8) {
 fn c04_sync_decode() { check_decode::<56>(T_SYNC) }
 
 // @harness c04_sync_roundtrip
-// @props C04
+// @props C04:quick
 // @tier quick
 // @timeout 900
 // @functions Message::deserialize, Header::deserialize_header, MessageBody::deserialize, SyncMessage::deserialize_content, TlvSet::deserialize, TlvSetIterator::next, Message::serialize, Header::serialize_header, Message::wire_size, PartialEq for Message
@@ -201,7 +201,7 @@ fn c04_sync_decode() { check_decode::<56>(T_SYNC) }
 fn c04_sync_roundtrip() { check_roundtrip::<56>(T_SYNC) }
 
 // @harness c04_delay_req_decode
-// @props C04
+// @props C04:quick
 // @tier quick
 // @timeout 900
 // @functions Message::deserialize, DelayReqMessage::deserialize_content, Message::serialize
@@ -211,7 +211,7 @@ fn c04_sync_roundtrip() { check_roundtrip::<56>(T_SYNC) }
 fn c04_delay_req_decode() { check_decode::<56>(T_DELAY_REQ) }
 
 // @harness c04_delay_req_roundtrip
-// @props C04
+// @props C04:thorough
 // @tier quick
 // @timeout 900
 // @functions Message::deserialize, DelayReqMessage::deserialize_content, Message::serialize
@@ -221,7 +221,7 @@ fn c04_delay_req_decode() { check_decode::<56>(T_DELAY_REQ) }
 fn c04_delay_req_roundtrip() { check_roundtrip::<56>(T_DELAY_REQ) }
 
 // @harness c04_follow_up_decode
-// @props C04
+// @props C04:quick
 // @tier quick
 // @timeout 900
 // @functions Message::deserialize, FollowUpMessage::deserialize_content, Message::serialize
@@ -231,7 +231,7 @@ fn c04_delay_req_roundtrip() { check_roundtrip::<56>(T_DELAY_REQ) }
 fn c04_follow_up_decode() { check_decode::<56>(T_FOLLOW_UP) }
 
 // @harness c04_follow_up_roundtrip
-// @props C04
+// @props C04:thorough
 // @tier quick
 // @timeout 900
 // @functions Message::deserialize, FollowUpMessage::deserialize_content, Message::serialize
@@ -241,7 +241,7 @@ fn c04_follow_up_decode() { check_decode::<56>(T_FOLLOW_UP) }
 fn c04_follow_up_roundtrip() { check_roundtrip::<56>(T_FOLLOW_UP) }
 
 // @harness c04_delay_resp_decode
-// @props C04
+// @props C04:quick
 // @tier quick
 // @timeout 900
 // @functions Message::deserialize, DelayRespMessage::deserialize_content, Message::serialize
@@ -251,7 +251,7 @@ fn c04_follow_up_roundtrip() { check_roundtrip::<56>(T_FOLLOW_UP) }
 fn c04_delay_resp_decode() { check_decode::<66>(T_DELAY_RESP) }
 
 // @harness c04_delay_resp_roundtrip
-// @props C04
+// @props C04:thorough
 // @tier quick
 // @timeout 900
 // @functions Message::deserialize, DelayRespMessage::deserialize_content, Message::serialize
@@ -261,7 +261,7 @@ fn c04_delay_resp_decode() { check_decode::<66>(T_DELAY_RESP) }
 fn c04_delay_resp_roundtrip() { check_roundtrip::<66>(T_DELAY_RESP) }
 
 // @harness c04_pdelay_req_decode
-// @props C04
+// @props C04:quick
 // @tier quick
 // @timeout 900
 // @functions Message::deserialize, PDelayReqMessage::deserialize_content, Message::serialize
@@ -271,7 +271,7 @@ fn c04_delay_resp_roundtrip() { check_roundtrip::<66>(T_DELAY_RESP) }
 fn c04_pdelay_req_decode() { check_decode::<66>(T_PDELAY_REQ) }
 
 // @harness c04_pdelay_req_roundtrip
-// @props C04
+// @props C04:thorough
 // @tier quick
 // @timeout 900
 // @functions Message::deserialize, PDelayReqMessage::deserialize_content, Message::serialize
@@ -281,7 +281,7 @@ fn c04_pdelay_req_decode() { check_decode::<66>(T_PDELAY_REQ) }
 fn c04_pdelay_req_roundtrip() { check_roundtrip::<66>(T_PDELAY_REQ) }
 
 // @harness c04_pdelay_resp_decode
-// @props C04
+// @props C04:quick
 // @tier quick
 // @timeout 900
 // @functions Message::deserialize, PDelayRespMessage::deserialize_content, Message::serialize
@@ -291,7 +291,7 @@ fn c04_pdelay_req_roundtrip() { check_roundtrip::<66>(T_PDELAY_REQ) }
 fn c04_pdelay_resp_decode() { check_decode::<66>(T_PDELAY_RESP) }
 
 // @harness c04_pdelay_resp_roundtrip
-// @props C04
+// @props C04:thorough
 // @tier quick
 // @timeout 900
 // @functions Message::deserialize, PDelayRespMessage::deserialize_content, Message::serialize
@@ -301,7 +301,7 @@ fn c04_pdelay_resp_decode() { check_decode::<66>(T_PDELAY_RESP) }
 fn c04_pdelay_resp_roundtrip() { check_roundtrip::<66>(T_PDELAY_RESP) }
 
 // @harness c04_pdelay_resp_follow_up_decode
-// @props C04
+// @props C04:quick
 // @tier quick
 // @timeout 900
 // @functions Message::deserialize, PDelayRespFollowUpMessage::deserialize_content, Message::serialize
@@ -311,7 +311,7 @@ fn c04_pdelay_resp_roundtrip() { check_roundtrip::<66>(T_PDELAY_RESP) }
 fn c04_pdelay_resp_follow_up_decode() { check_decode::<66>(T_PDELAY_RESP_FOLLOW_UP) }
 
 // @harness c04_pdelay_resp_follow_up_roundtrip
-// @props C04
+// @props C04:thorough
 // @tier quick
 // @timeout 900
 // @functions Message::deserialize, PDelayRespFollowUpMessage::deserialize_content, Message::serialize
@@ -321,7 +321,7 @@ fn c04_pdelay_resp_follow_up_decode() { check_decode::<66>(T_PDELAY_RESP_FOLLOW_
 fn c04_pdelay_resp_follow_up_roundtrip() { check_roundtrip::<66>(T_PDELAY_RESP_FOLLOW_UP) }
 
 // @harness c04_announce_decode
-// @props C04 C03:thorough
+// @props C04:quick C03:thorough
 // @tier quick
 // @timeout 1200
 // @functions Message::deserialize, AnnounceMessage::deserialize_content, ClockQuality::deserialize, ClockAccuracy::from_primitive, TimeSource::from_primitive, Message::serialize, AnnounceMessage::serialize_content
@@ -331,7 +331,7 @@ fn c04_pdelay_resp_follow_up_roundtrip() { check_roundtrip::<66>(T_PDELAY_RESP_F
 fn c04_announce_decode() { check_decode::<76>(T_ANNOUNCE) }
 
 // @harness c04_announce_roundtrip
-// @props C04
+// @props C04:quick
 // @tier quick
 // @timeout 1200
 // @functions Message::deserialize, AnnounceMessage::deserialize_content, ClockQuality::deserialize, ClockAccuracy::from_primitive, TimeSource::from_primitive, Message::serialize, AnnounceMessage::serialize_content
@@ -341,7 +341,7 @@ fn c04_announce_decode() { check_decode::<76>(T_ANNOUNCE) }
 fn c04_announce_roundtrip() { check_roundtrip::<76>(T_ANNOUNCE) }
 
 // @harness c04_signaling_decode
-// @props C04
+// @props C04:quick
 // @tier quick
 // @timeout 900
 // @functions Message::deserialize, SignalingMessage::deserialize_content, Message::serialize
@@ -351,7 +351,7 @@ fn c04_announce_roundtrip() { check_roundtrip::<76>(T_ANNOUNCE) }
 fn c04_signaling_decode() { check_decode::<56>(T_SIGNALING) }
 
 // @harness c04_signaling_roundtrip
-// @props C04
+// @props C04:thorough
 // @tier quick
 // @timeout 900
 // @functions Message::deserialize, SignalingMessage::deserialize_content, Message::serialize
@@ -361,7 +361,7 @@ fn c04_signaling_decode() { check_decode::<56>(T_SIGNALING) }
 fn c04_signaling_roundtrip() { check_roundtrip::<56>(T_SIGNALING) }
 
 // @harness c04_management_decode
-// @props C04
+// @props C04:quick
 // @tier quick
 // @timeout 900
 // @functions Message::deserialize, ManagementMessage::deserialize_content, ManagementAction::from_primitive, Message::serialize, ManagementMessage::serialize_content
@@ -371,7 +371,7 @@ fn c04_signaling_roundtrip() { check_roundtrip::<56>(T_SIGNALING) }
 fn c04_management_decode() { check_decode::<60>(T_MANAGEMENT) }
 
 // @harness c04_management_roundtrip
-// @props C04
+// @props C04:thorough
 // @tier quick
 // @timeout 900
 // @functions Message::deserialize, ManagementMessage::deserialize_content, ManagementAction::from_primitive, Message::serialize, ManagementMessage::serialize_content
@@ -381,7 +381,7 @@ fn c04_management_decode() { check_decode::<60>(T_MANAGEMENT) }
 fn c04_management_roundtrip() { check_roundtrip::<60>(T_MANAGEMENT) }
 
 // @harness c04_unknown_types_rejected
-// @props C04
+// @props C04:quick
 // @tier quick
 // @timeout 600
 // @functions Message::deserialize, Header::deserialize_header, MessageType::try_from
@@ -524,7 +524,7 @@ fn check_encode<const N: usize>(t: u8) {
 }
 
 // @harness c04_encode_sync
-// @props C04 C10
+// @props C04:quick C10:quick
 // @tier quick
 // @timeout 600
 // @functions Message::serialize, Header::serialize_header, SyncMessage::serialize_content, WireTimestamp::serialize, TimeInterval::serialize, PortIdentity::serialize
@@ -534,7 +534,7 @@ fn check_encode<const N: usize>(t: u8) {
 fn c04_encode_sync() { check_encode::<44>(T_SYNC) }
 
 // @harness c04_encode_delay_req
-// @props C04 C10
+// @props C04:quick C10:quick
 // @tier quick
 // @timeout 600
 // @functions Message::serialize, DelayReqMessage::serialize_content
@@ -544,7 +544,7 @@ fn c04_encode_sync() { check_encode::<44>(T_SYNC) }
 fn c04_encode_delay_req() { check_encode::<44>(T_DELAY_REQ) }
 
 // @harness c04_encode_follow_up
-// @props C04 C10
+// @props C04:quick C10:quick
 // @tier quick
 // @timeout 600
 // @functions Message::serialize, FollowUpMessage::serialize_content
@@ -554,7 +554,7 @@ fn c04_encode_delay_req() { check_encode::<44>(T_DELAY_REQ) }
 fn c04_encode_follow_up() { check_encode::<44>(T_FOLLOW_UP) }
 
 // @harness c04_encode_delay_resp
-// @props C04 C10
+// @props C04:quick C10:quick
 // @tier quick
 // @timeout 600
 // @functions Message::serialize, DelayRespMessage::serialize_content
@@ -564,7 +564,7 @@ fn c04_encode_follow_up() { check_encode::<44>(T_FOLLOW_UP) }
 fn c04_encode_delay_resp() { check_encode::<54>(T_DELAY_RESP) }
 
 // @harness c04_encode_pdelay_req
-// @props C04 C10 C14
+// @props C04:quick C10:quick C14:quick
 // @tier quick
 // @timeout 600
 // @functions Message::serialize, PDelayReqMessage::serialize_content
@@ -574,7 +574,7 @@ fn c04_encode_delay_resp() { check_encode::<54>(T_DELAY_RESP) }
 fn c04_encode_pdelay_req() { check_encode::<54>(T_PDELAY_REQ) }
 
 // @harness c04_encode_pdelay_resp
-// @props C04 C10
+// @props C04:quick C10:quick
 // @tier quick
 // @timeout 600
 // @functions Message::serialize, PDelayRespMessage::serialize_content
@@ -584,7 +584,7 @@ fn c04_encode_pdelay_req() { check_encode::<54>(T_PDELAY_REQ) }
 fn c04_encode_pdelay_resp() { check_encode::<54>(T_PDELAY_RESP) }
 
 // @harness c04_encode_pdelay_resp_follow_up
-// @props C04 C10
+// @props C04:quick C10:quick
 // @tier quick
 // @timeout 600
 // @functions Message::serialize, PDelayRespFollowUpMessage::serialize_content
@@ -594,7 +594,7 @@ fn c04_encode_pdelay_resp() { check_encode::<54>(T_PDELAY_RESP) }
 fn c04_encode_pdelay_resp_follow_up() { check_encode::<54>(T_PDELAY_RESP_FOLLOW_UP) }
 
 // @harness c04_encode_announce
-// @props C04 C11
+// @props C04:quick C11:quick
 // @tier quick
 // @timeout 900
 // @functions Message::serialize, AnnounceMessage::serialize_content, ClockQuality::serialize, ClockAccuracy::to_primitive, TimeSource::to_primitive
@@ -608,7 +608,7 @@ fn c04_encode_announce() { check_encode::<64>(T_ANNOUNCE) }
 // ================================================================================================
 
 // @harness c04_enum_octet_maps
-// @props C04
+// @props C04:quick
 // @tier quick
 // @timeout 600
 // @functions TlvType::from_primitive, TlvType::to_primitive, ClockAccuracy::from_primitive, ClockAccuracy::to_primitive, TimeSource::from_primitive, TimeSource::to_primitive, ManagementAction::from_primitive, ManagementAction::to_primitive
